@@ -1,8 +1,9 @@
 """C11 — Session state carries over from one request to the next, exactly.
 
 Decided clause (structural, necessary): the session is a typestate machine and its discipline holds on every path:
-R1 dirty tracking, R2 sync table, R3 id/cookie plumbing, R4 only `sync` (and `force_load`) talk to the store.
-History equality itself is not decided.
+R1 dirty tracking, R2 sync table, R3 id/cookie plumbing, R4 only `sync` (and `force_load`) talk to the store, R5 exhaustive
+exploration of the abstract session state machine (operations interpreted on their MIR) against the store's contract.
+Equality of the stored values themselves is not decided.
 """
 from ..facts import callee, callee_resolved, op_place, strip_generics, is_user
 from ..flow import Defs, backward_slice, forward_derived, slice_aggregates, slice_calls
@@ -10,8 +11,11 @@ from ..flow import Defs, backward_slice, forward_derived, slice_aggregates, slic
 LEVEL = 'other'
 CLAUSE = ('every path that mutates the clean (as-loaded) session state re-tags it dirty before returning; Session::sync '
           'issues exactly the documented store operations per (state, id) cell and propagates their errors; the cookie '
-          'carries the current id; only sync/force_load touch the store.')
-TRUSTED = ['std HashMap semantics (remove returning None changed nothing)', 'SessionStore delegates to the backend']
+          'carries the current id; only sync/force_load touch the store; over every sequence of session operations in a '
+          'request no store call of sync fails because of the session\'s own earlier calls, no panic in sync is reachable, no '
+          'record survives an invalidation, no clean state is left without a record, no record is orphaned.')
+TRUSTED = ['std HashMap semantics (remove returning None changed nothing)', 'SessionStore delegates to the backend',
+           'the backend honours the SessionStorageBackend contract (create: DuplicateId iff a record exists; update/update_ttl/delete: UnknownId iff none; change_id: both)']
 
 CR = 'pavex_session'
 M = 'pavex_session::session_::'
@@ -183,6 +187,7 @@ SS, OPT, CID = M + 'ServerState', 'core::option::Option', M + 'CurrentSessionId'
 # the documented sync table: (store method, server-state cell, id cell). 'NotLoaded' = the OnceCell is empty.
 SYNC_TABLE = {
     ('create', 'DoesNotExist', 'Existing|NewlyGenerated'),
+    ('create', 'DoesNotExist', 'ToBeRenamed'),
     ('change_id', 'NotLoaded', 'ToBeRenamed'),
     ('update_ttl', 'Unchanged', 'Existing'),
     ('change_id', 'Unchanged', 'ToBeRenamed'),
@@ -190,11 +195,12 @@ SYNC_TABLE = {
     ('create', 'Unchanged', 'NewlyGenerated'),
     ('delete', 'MarkedForDeletion', '*'),
     ('update', 'Changed', 'Existing'),
+    ('create', 'Changed', 'Existing'),             # fallback when update reports UnknownId
     ('delete', 'Changed', 'ToBeRenamed'),
     ('create', 'Changed', 'ToBeRenamed'),
     ('create', 'Changed', 'NewlyGenerated'),
 }
-TOLERATED_ERR_VARIANTS = {'UnknownId'}
+TOLERATED_ERR_VARIANTS = {'UnknownId', 'UnknownIdError'}   # the "no such record" variant of ChangeIdError/DeleteError and of UpdateError
 
 
 def _sync_body(ctx):
@@ -246,10 +252,11 @@ def r2_sync_table(ctx):
     # record / id provenance per cell
     RECORD = {('create', 'DoesNotExist', 'Existing|NewlyGenerated'): 'empty', ('create', 'Unchanged', 'NewlyGenerated'): 'empty',
               ('create', 'Unchanged', 'ToBeRenamed'): 'Unchanged.state', ('create', 'Changed', 'ToBeRenamed'): 'Changed.state',
-              ('create', 'Changed', 'NewlyGenerated'): 'Changed.state', ('update', 'Changed', 'Existing'): 'Changed.state'}
+              ('create', 'Changed', 'NewlyGenerated'): 'Changed.state', ('update', 'Changed', 'Existing'): 'Changed.state',
+              ('create', 'Changed', 'Existing'): 'Changed.state', ('create', 'DoesNotExist', 'ToBeRenamed'): 'empty'}
     IDS = {('change_id', 'NotLoaded', 'ToBeRenamed'): ['old', 'new'], ('change_id', 'Unchanged', 'ToBeRenamed'): ['old', 'new'],
            ('create', 'Unchanged', 'ToBeRenamed'): ['new'], ('delete', 'Changed', 'ToBeRenamed'): ['old'],
-           ('create', 'Changed', 'ToBeRenamed'): ['new']}
+           ('create', 'Changed', 'ToBeRenamed'): ['new'], ('create', 'DoesNotExist', 'ToBeRenamed'): ['new']}
     defs = Defs(body)
 
     def reads_of(op):
@@ -436,3 +443,5 @@ def check(ctx):
     r2_sync_table(ctx)
     r3_id_plumbing(ctx)
     r4_only_sync_talks_to_store(ctx)
+    from .c11_model import r5_typestate
+    r5_typestate(ctx)
